@@ -22,7 +22,7 @@
    of discovered events (name, payload type string).
    Definitions only. *)
 From Coq Require Import String Ascii.
-From Coq Require Import List Arith Bool ZArith.
+From Coq Require Import List Arith Bool ZArith NArith.
 Require Import TT.Model.Str TT.Model.TypeParse TT.Model.Render TT.Model.Pipeline.
 Require Import TT.Spec.TsLex TT.Spec.TsModule TT.Spec.TsObs TT.Spec.C01Wf.
 Import ListNotations.
@@ -52,7 +52,7 @@ Definition toks_of (cs : list chunk) : list tk := flat_map chunk_lex cs.
 Definition lexed (cs : list chunk) : list tk := lex_module (text cs).
 
 Definition toks_clean (l : list tk) : bool := negb (has_err l) && forallb tok_ok l.
-Definition key_text_ok (s : str) : bool := is_ts_identifier s || num_ok s.
+Definition key_text_ok (s : str) : bool := is_ident_name s || num_ok s.
 Definition hole_ok (c : hclass) (s : str) : bool :=
   match c with
   | HFn | HTyName => is_binding_name s
@@ -368,10 +368,21 @@ Definition any_channels (cmds : list c_cmd) : bool := existsb (fun c => nonempty
    escaped literal. is_identifier_name uses char::is_alphabetic / is_alphanumeric; on bytes every non-ASCII
    byte counts as a letter here (the code quotes names with non-alphabetic non-ASCII characters as well:
    the difference is only towards more quoting) *)
-Definition key_chunk (k : str) : chunk := if is_ts_identifier k then Hole HKey k else Hole (HStr DQ) (escape_js k).
+(* is_identifier_name of the ts_key filter: first char is_alphabetic or _ or $, the others is_alphanumeric or _ or $.
+   On the generated alphabet char::is_alphabetic = the ID_Start table of Spec/C01Wf.v and char::is_alphanumeric adds
+   the decimal digits of other scripts AND category No (superscripts U+00B2 U+00B3 U+00B9, fractions U+00BC-00BE,
+   U+2070 U+2074-2079, subscripts U+2080-2089, U+2150-215F, circled U+2460-249B, dingbat numbers U+2776-2793),
+   which are not ECMAScript identifier characters; any other non-ASCII character counts as not alphanumeric *)
+Definition other_number_ranges : list (N * N) :=
+  [(178, 179); (185, 185); (188, 190); (8304, 8304); (8308, 8313); (8320, 8329); (8528, 8543); (9312, 9371); (10102, 10131)]%N.
+Definition rust_alpha_cp (cp : N) : bool := in_ranges cp id_start_ranges.
+Definition rust_alnum_cp (cp : N) : bool :=
+  in_ranges cp id_start_ranges || in_ranges cp [(1632, 1641); (2406, 2415); (65296, 65305)]%N || in_ranges cp other_number_ranges.
+Definition rust_ident_name (k : str) : bool := is_ts_identifier k && uni_walk rust_alpha_cp rust_alnum_cp true k.
+Definition key_chunk (k : str) : chunk := if rust_ident_name k then Hole HKey k else Hole (HStr DQ) (escape_js k).
 (* ts_key(member=true): .name or ["na-me"] *)
 Definition member_access (k : str) : list chunk :=
-  if is_ts_identifier k then [F "."; Hole HKey k] else [F "["; Hole (HStr DQ) (escape_js k); F "]"].
+  if rust_ident_name k then [F "."; Hole HKey k] else [F "["; Hole (HStr DQ) (escape_js k); F "]"].
 Definition member_chunks (key : str) (opt : bool) (ty : str) : list chunk :=
   [F " "; key_chunk key] ++ (if opt then [F "?"] else []) ++ [F ": "; Hole HType ty; F ";"; NL].
 Definition channel_member (g : c_cfg) (c : c_cmd) (ch : str * qty) : list chunk :=
@@ -590,8 +601,8 @@ Definition bad_class (h : hclass) (s : str) : option string :=
      (match s with c :: _ => is_digit c | [] => false end) && forallb is_id_char s && negb (num_ok s)
   then Some "C01-digit-first"%string else
   match h with
-  | HKey => None
-  | HFn => if is_ts_identifier s then Some "C01-reserved-fn"%string
+  | HKey => if rust_ident_name s && negb (is_ident_name s) then Some "C01-key-other-number"%string else None
+  | HFn => if is_ident_name s then Some "C01-reserved-fn"%string
            else None
   | HType | HZ => if has_sub "::" s then Some "C01-path-leak"%string
                   else None
